@@ -13,7 +13,7 @@ EXPECTED = 24     # 12 pairs
 def run_canaries(m):
     """-> list of (name, kind, verdict ok?, detail)"""
     out = []
-    names = sorted(n for n in m.roots if n.startswith('verif_root_canary__'))
+    names = sorted(n for n in m.roots if n.startswith('verif_root_canary__') and '__pw_' not in n)
     for nm in names:
         kind = 'bad' if '__bad_' in nm else 'good'
         inst = m.roots[nm]
@@ -53,3 +53,22 @@ def report(chk, cfgname, m):
             chk.ok('engine-canary', key, dict(canary=nm.replace('verif_root_canary__', ''), expected='flagged' if kind == 'bad' else 'discharged', got=detail))
         else:
             chk.fail_closed('engine-canary', key, 'engine canary %s (%s must be %s): %s' % (nm, kind, 'flagged' if kind == 'bad' else 'discharged', detail))
+
+
+def report_pw(chk, cfgname, m):
+    """canaries of the bit-level engine: the S-box inverse lemma must hold for the inverse pair, fail for the non-inverse
+    pair and be undecided for the function that is not a position-wise boolean circuit"""
+    import c01
+    fns = {n.replace('verif_root_canary__', ''): m.fn(m.roots[n]) for n in m.roots if n.startswith('verif_root_canary__pw_')}
+    want = [('pw_f', 'pw_f_inv', True), ('pw_f_inv', 'pw_f', True), ('pw_f', 'pw_f_notinv', False), ('pw_notpure', 'pw_f_inv', None)]
+    for (a, b, expected) in want:
+        key = '%s|lemma %s(%s(u)) = u' % (cfgname, b, a)
+        if a not in fns or b not in fns:
+            chk.fail_closed('engine-canary', key, 'bit-level canary %s / %s missing from the export' % (a, b))
+            continue
+        with equiv.TermMode():
+            ok, detail = c01.pw_lemma(m, fns[a], fns[b], 'inplace', 3)
+        if ok is expected:
+            chk.ok('engine-canary', key, dict(canary='%s, %s' % (a, b), expected=str(expected), got=detail))
+        else:
+            chk.fail_closed('engine-canary', key, 'bit-level canary: lemma %s(%s(u)) = u gave %s (%s), expected %s' % (b, a, ok, detail, expected))
